@@ -6,7 +6,7 @@
    `pre` = the cycles already elapsed, `i` = the inputs of the current cycle, `pre ++ [i]` = one clock edge later;
    r2a_valid_now / r2a_active_now / a2r_tready = what is on the wires during the current cycle. *)
 From V Require Import Base.Bits Spec.C16 Model.Axi.
-From V Require Import Proofs.C16.Gates Proofs.C16.Axi2Reg Proofs.C16.Reg2Axi Proofs.C16.Fsm Proofs.C16.Statements.
+From V Require Import Proofs.C16.Gates Proofs.C16.Axi2Reg Proofs.C16.Reg2Axi Proofs.C16.Fsm Proofs.C16.Statements Proofs.C16.ClosedLoop.
 (* ================================================================== Axi2Reg (stream -> register) *)
 
 (* refinement: after every schedule the gate network + registers show what the reference machine shows
@@ -180,6 +180,53 @@ Example C16_axi2clk_fsm_back_to_back_before_repair_03e7104 :
   skipn 6 (a2c_trace 8 (a2c_idle 0) (first ++ second)) = [(0, 0); (1, 0); (0, 0); (0, 1); (0, 0); (0, 0); (0, 0); (0, 0); (0, 0); (0, 0); (0, 0)].
 Proof. vm_compute. repeat split. repeat constructor. Qed.
 
+(* ================================================================== closing the loop: Reg2Axi <-> VitisKernelFSM (Proofs/C16/ClosedLoop.v)
+   The product machine cl_step: the gate-level Reg2Axi (r2a_step) and the FSM wrapper (vk_sys_step = regenerated VitisKernelFSM_clock
+   + the wires it prepares) on one clock; Reg2Axi.ap_done := the FSM's ap_done WIRE, FSM.all_sent := Reg2Axi's sent WIRE, ap_start and
+   load_outs shared, ap_reset to Reg2Axi only (VitisKernelFSM.clock never reads it).  Outside inputs per cycle: cl_in = (start, reset,
+   load_outs, tready, reg_in).  cl_ins DW cl_st0 xs = the schedule Reg2Axi sees inside the loop (done column produced by the FSM);
+   cl_load_ok = the kernel's side of the FSM protocol: load_outs is pulsed only while the FSM is in IDLE or STARTED (never between the
+   pulse that took it to LOADED and the end of the DONE cycle).  No assumption on start, reset, tready, reg_in.
+   /repo's createHILVitis does not instantiate VitisKernelFSM: these are theorems about the INTENDED composition. *)
+
+(* the property's hypothesis ("done is only signalled after a completed transfer") holds along EVERY run of the product *)
+Theorem C16_closed_loop_env_ok :
+  forall DW xs, 1 <= DW -> cl_load_ok DW cl_st0 xs -> r2a_env_ok DW r2a_st0 (cl_ins DW cl_st0 xs).
+Proof. exact cl_env_ok. Qed.
+(* Reg2Axi inside the loop IS Reg2Axi under that schedule (so every theorem above about r2a_run applies to it) *)
+Theorem C16_closed_loop_is_r2a_run :
+  forall DW xs, fst (cl_run DW xs) = r2a_run DW (cl_ins DW cl_st0 xs).
+Proof. exact cl_reg2axi_is_run. Qed.
+(* in a cycle in which the ap_done wire is high the FSM is in DONE and no beat is pending *)
+Theorem C16_closed_loop_done_means_delivered :
+  forall DW xs, 1 <= DW -> cl_load_ok DW cl_st0 xs ->
+  let c := cl_run DW xs in
+  vs_done (snd c) = 1 -> vk_state (vs_st (snd c)) = 3 /\ r2a_tvalid (fst c) = 0.
+Proof. exact cl_done_means_delivered. Qed.
+(* the clauses that needed r2a_env_ok, with it discharged: resets allowed in the first two *)
+Theorem C16_r2a_accepted_beat_withdrawn_closed_loop :
+  forall DW xs x, 1 <= DW -> cl_load_ok DW cl_st0 (xs ++ [x]) ->
+  r2a_accepted (r2a_valid_now (fst (cl_run DW xs))) (cl_r2a_in (cl_run DW xs) x) = true ->
+  r2a_tvalid (fst (cl_run DW (xs ++ [x]))) = 0.
+Proof. exact cl_accepted_beat_withdrawn. Qed.
+Theorem C16_r2a_no_duplicate_closed_loop :
+  forall DW xs, 1 <= DW -> cl_load_ok DW cl_st0 xs ->
+  fst (r2a_counts DW r2a_st0 (cl_ins DW cl_st0 xs)) <= snd (r2a_counts DW r2a_st0 (cl_ins DW cl_st0 xs)).
+Proof. exact cl_no_duplicate. Qed.
+(* exactly once: BOTH hypotheses of C16_r2a_exactly_once are discharged (r2a_env_strict's "no load pulse while a beat is pending"
+   follows from cl_load_ok: a beat is pending only while the FSM is in LOADED); what remains is "no reset" *)
+Theorem C16_r2a_exactly_once_closed_loop :
+  forall DW xs, 1 <= DW -> cl_load_ok DW cl_st0 xs -> cl_no_reset xs ->
+  let ins := cl_ins DW cl_st0 xs in
+  fst (r2a_counts DW r2a_st0 ins) + b2z (r2a_valid_now (fst (cl_run DW xs))) = snd (r2a_counts DW r2a_st0 ins).
+Proof. exact cl_exactly_once. Qed.
+(* cl_load_ok is needed: a second load pulse in the very cycle in which the FSM (LOADED) sees all_sent puts a beat on the bus in the
+   DONE cycle; ap_done then deactivates Reg2Axi with VALID high (finding C16-F1 reached INSIDE the loop): 3 accepted beats for 2 pulses *)
+Theorem C16_closed_loop_reload_in_loaded_refuted :
+  exists xs, cl_no_reset xs /\ ~ cl_load_ok 8 cl_st0 xs /\ ~ r2a_env_ok 8 r2a_st0 (cl_ins 8 cl_st0 xs) /\
+             r2a_counts 8 r2a_st0 (cl_ins 8 cl_st0 xs) = (3, 2).
+Proof. exact cl_reload_witness. Qed.
+
 (* ------------------------------------------------------------------ non-vacuity of the hypotheses *)
 Definition ok_sched : list r2a_in :=
   map mkB [(1,0,0,0,0,0); (0,0,0,1,0,9); (0,0,0,0,0,0); (0,0,0,0,1,0); (0,0,1,0,0,0); (1,0,0,0,0,0); (0,0,0,1,1,200); (0,0,0,0,1,3)].
@@ -195,6 +242,15 @@ Example C16_fsm_nonvacuous :
   vs_done (vk_sys_run [(true, false, false); (false, true, false); (false, false, true)]) = 1 /\
   a2c_trace 64 (a2c_idle 0) ((true, 1) :: repeat (false, 0) 4) = a2c_expected 1.
 Proof. vm_compute. auto. Qed.
+
+(* two complete rounds through the loop satisfy cl_load_ok / cl_no_reset: the FSM really raises done (cycles 5 and 11), both beats are
+   delivered once, the FSM walks 0 1 2 2 2 3 0 0 1 2 2 3 0 *)
+Example C16_closed_loop_nonvacuous :
+  cl_load_ok 8 cl_st0 cl_sched /\ cl_no_reset cl_sched /\
+  map b_done (cl_ins 8 cl_st0 cl_sched) = [false; false; false; false; false; true; false; false; false; false; false; true] /\
+  r2a_counts 8 r2a_st0 (cl_ins 8 cl_st0 cl_sched) = (2, 2) /\
+  map (fun k => vk_state (vs_st (snd (cl_run 8 (firstn k cl_sched))))) (seq 0 13) = [0; 1; 2; 2; 2; 3; 0; 0; 1; 2; 2; 3; 0].
+Proof. exact cl_example. Qed.
 
 Print Assumptions C16_a2r_refines_reference.
 Print Assumptions C16_a2r_holds_most_recent_beat.
@@ -220,3 +276,10 @@ Print Assumptions C16_kernel_fsm_sequence.
 Print Assumptions C16_kernel_fsm_done_pulse.
 Print Assumptions C16_axi2clk_fsm_pulse_train.
 Print Assumptions C16_axi2clk_fsm_back_to_back.
+Print Assumptions C16_closed_loop_env_ok.
+Print Assumptions C16_closed_loop_is_r2a_run.
+Print Assumptions C16_closed_loop_done_means_delivered.
+Print Assumptions C16_r2a_accepted_beat_withdrawn_closed_loop.
+Print Assumptions C16_r2a_no_duplicate_closed_loop.
+Print Assumptions C16_r2a_exactly_once_closed_loop.
+Print Assumptions C16_closed_loop_reload_in_loaded_refuted.
